@@ -11,7 +11,7 @@ class C02(rt.RoundTrip):
             "distinct emitted source text")
     assumptions = ("permitted normalisation: a parameter without default may acquire the zero value of its scalar type or None",
                    "absent type may come back absent / object / type name of the default")
-    policy = {"absent_default": ("absent", "zero", "none"), "ret_absent_default": ("absent", "zero", "none"), "summary_exact": True}
+    policy = {"absent_default": ("absent", "zero", "none"), "ret_absent_default": ("absent", "zero", "none"), "summary_exact": True, "none_for_any_type": True, "default_sentence": "stripped"}
 
     def option_list(self):
         if self.tier == "thorough":
